@@ -41,7 +41,9 @@ SCOPE = {"quick": "str: 9 pools x R(3)=26 rankings x 14 variants; file: ~4.2k en
 EXHAUSTIVE = {"quick": False, "thorough": False}
 
 INT_POOLS = [[0, 1, 2, 3], [10, 123, 5, 77], [8, 0, 16, 24], [1000000, 42, 7, 99], [3, 2, 1, 0]]
-STR_POOLS = [["a", "bob", "x1", "Z"], ["1a", "B_2", "zz", "q-r"], ["c", "b", "a", "d"], ["x10", "x9", "y", "x"]]
+STR_POOLS = [["a", "bob", "x1", "Z"], ["1a", "B_2", "zz", "q-r"], ["c", "b", "a", "d"], ["x10", "x9", "y", "x"],
+             # names with punctuation other than the format's delimiters  [ ] { } , :  and blanks
+             ["C++", "F#", "a@b", "p53(mut)"], ["IL-2/IL-4", "x.y", "50%", "a'b"], ["<tag>", "a=b", "q?", "~z!"]]
 
 
 def _variants(s):
@@ -204,8 +206,14 @@ def _check_file(case):
     exp_r = [A.ranking_to_raw(r) for r in ds.rankings]
     want = _multiset(A.raw_canon(r) for r in ds.rankings)
     tmp = tempfile.mkdtemp(prefix="verif-c18-")
+    cwd0 = os.getcwd()
+    # the "fresh file" is named in one of four ways: absolute path, bare name / ./name relative to the current directory,
+    # name inside an existing sub-directory
+    form = len(str(rankings)) % 4
     try:
-        path = os.path.join(tmp, "d.txt")
+        os.mkdir(os.path.join(tmp, "sub"))
+        os.chdir(tmp)
+        path = [os.path.join(tmp, "d.txt"), "d.txt", os.path.join(".", "d.txt"), os.path.join("sub", "d.txt")][form]
         try:
             _arm(FILE_BUDGET)       # armed only around the repo calls (imports may JIT-compile for seconds)
             with A.quiet():
@@ -222,11 +230,12 @@ def _check_file(case):
                 with open(path, encoding="utf-8") as f:
                     text = f.read()
             fails.append({"clause": "C18.roundtrip.file", "site": "write/from_file raised",
-                          "detail": {"exception": "%s: %s" % (type(e).__name__, e), "file": text}})
+                          "detail": {"exception": "%s: %s" % (type(e).__name__, e), "file": text, "path_form": path}})
             return {"fails": fails, "key": str(rankings), "evals": 1, "sample": case}
         with open(path, encoding="utf-8") as f:
             text = f.read()
     finally:
+        os.chdir(cwd0)
         shutil.rmtree(tmp, ignore_errors=True)
     got = _multiset(A.raw_canon(r) for r in back.rankings)
     if got != want:
